@@ -310,6 +310,23 @@ CLAIMS = {
         technique="static analysis: abstract evaluation + canonical-form comparison of the generated constraint schema against a reference schema (ast)",
         ref="DESIGN.md §3 C08",
     ),
+    "C10": dict(
+        text=(
+            "Decides C10 in three semantic parts on small frames: (FDT-1) for corner, edge and interior lattice points of a 2x2 "
+            "frame the constraints that only mention that point are evaluated on all (segment flags, visited, crossing) "
+            "assignments: the admitted (degree, visited, crossing) triples must be exactly {(0,F,F), (1|2,T,F) [2 only for a cycle], "
+            "(4,T,T) interior only}; the function returns the (visited, crossing) arrays of the lattice's shape, also through "
+            "active_edges_single_cycle_crossable; (SPLIT) the node list and the graph handed to active_vertices_connected are "
+            "captured, the node flags are computed from their defining equivalences, and for every degree-admissible segment subset "
+            "of the 1x1, 1x2 and 2x2 frames (about 4000) 'active nodes connected in the split graph' must equal 'all active segments "
+            "lie on one strand with straight pass-through at 4-way points' (graph search on the captured structure, so a consistent "
+            "swap of the two pass-through halves is accepted); the connectivity constraint itself is C04's schema; (ENC-S) the whole "
+            "constraint set equals the reference schema (informational when FDT-1 and SPLIT decide); (CFG-4) native gating."
+        ),
+        note="Trusted: the abstract evaluator; C04's connectivity schema for the sub-call; frames up to 2x2 stand for all sizes (the construction is uniform per point/segment).",
+        technique="static analysis: abstract evaluation, finite-domain table evaluation of local constraints, graph search on the captured split graph (ast)",
+        ref="DESIGN.md §3 C10",
+    ),
 }
 
 NOT_APPLICABLE = {
